@@ -237,8 +237,14 @@ pub fn run(args: &Args) -> i32 {
         qs.retain(|q| *q >= min_q && *q <= sent_wire.len());
         qs.sort_unstable();
         qs.dedup();
-        for (li, objs) in lists.iter().enumerate() {
-            let ext_bytes = wire::build_ext_structure(objs);
+        // the last pseudo-list is "no extension structure at all" (a length attribute may be set
+        // without any extension following, RFC 4884 section 4.5)
+        let no_struct_li = lists.len();
+        let empty: Vec<ExtObj> = vec![];
+        for li in 0..=lists.len() {
+            let no_struct = li == no_struct_li;
+            let objs = if no_struct { &empty } else { &lists[li] };
+            let ext_bytes = if no_struct { vec![] } else { wire::build_ext_structure(objs) };
             // with the full object alphabet only a stride of the quoted lengths is used in quick
             let stride = if tier == Tier::Quick && objs.len() == 2 { 7 } else { 1 };
             for (qi, &q) in qs.iter().enumerate() {
@@ -276,7 +282,7 @@ pub fn run(args: &Args) -> i32 {
                         if payload != body[..orig_field_len] {
                             add(&mut local, format!("original-datagram-altered:{}", if v6 { "v6" } else { "v4" }), format!("[{ctx}] length attribute {len_field}, original datagram field {orig_field_len} octets, payload() returned {} octets (differs)", payload.len()), json!({"check":"C14","ctx":ctx,"icmp":icmp}), icmp.len());
                         }
-                        if ext.as_deref() != Some(&ext_bytes[..]) {
+                        if (no_struct && ext.is_some()) || (!no_struct && ext.as_deref() != Some(&ext_bytes[..])) {
                             add(&mut local, format!("extension-slice-wrong:{}", if v6 { "v6" } else { "v4" }), format!("[{ctx}] length attribute {len_field}: extension() returned {:?} octets, encoded {}", ext.as_ref().map(Vec::len), ext_bytes.len()), json!({"check":"C14","ctx":ctx,"icmp":icmp}), icmp.len());
                         }
                     }
@@ -304,7 +310,7 @@ pub fn run(args: &Args) -> i32 {
                                 if addr != from {
                                     add(&mut local, "wrong-responder".into(), format!("[{ctx}] {addr} vs {from}"), replay.clone(), dgram.len());
                                 }
-                                let want = if cell.ext { Some(expected_extensions(objs)) } else { None };
+                                let want = if cell.ext && !no_struct { Some(expected_extensions(objs)) } else { None };
                                 if exts != want {
                                     add(&mut local, format!("extensions-differ:{}", if v6 { "v6" } else { "v4" }), format!("[{ctx}] q={q} length attribute {len_field}: decoded {exts:?} but encoded {want:?}"), replay, dgram.len());
                                 }
@@ -412,7 +418,7 @@ pub fn run(args: &Args) -> i32 {
     rep.set("object_lists", json!(lists.len()));
     rep.set("units", json!(units.len()));
     rep.observe("distinct_rfc4884_length_attribute_values", json!(c.3.len()));
-    rep.set("rule", json!("{v4,v6} x {TimeExceeded, DestinationUnreachable} x parse mode {on,off} x protocol {icmp, udp/dublin, tcp} x layout {RFC 4884 compliant, legacy 128} x every quoted-prefix length giving a distinct length attribute (plus unaligned neighbours) x all object lists of length <= 3 (quick) / 4 (thorough) over 11 object shapes (MPLS depth 1-3 with boundary label/EXP/S/TTL, incl. a last entry without the S bit and an S bit before the end of the object; an empty stack - RFC 4950 requires at least one entry - belongs to the corruptions, classes 2,3,255, sizes 4/5/7/8/12); oracle: views return the original-datagram field and the extension structure byte-exactly, recv_probe reports exactly the encoded objects in order. Corruptions of a subset: every truncation point and all 256 values of the length attribute, of every object-length octet and of the version octet: no panic, iteration under ceiling, payload/extension inside the message and disjoint. Non-trivial = message carries >= 1 object, or is a corruption"));
+    rep.set("rule", json!("{v4,v6} x {TimeExceeded, DestinationUnreachable} x parse mode {on,off} x protocol {icmp, udp/dublin, tcp} x layout {RFC 4884 compliant, legacy 128} x every quoted-prefix length giving a distinct length attribute (plus unaligned neighbours) x all object lists of length <= 3 (quick) / 4 (thorough) (+ no extension structure at all) over 11 object shapes (MPLS depth 1-3 with boundary label/EXP/S/TTL, incl. a last entry without the S bit and an S bit before the end of the object; an empty stack - RFC 4950 requires at least one entry - belongs to the corruptions, classes 2,3,255, sizes 4/5/7/8/12); oracle: views return the original-datagram field and the extension structure byte-exactly, recv_probe reports exactly the encoded objects in order. Corruptions of a subset: every truncation point and all 256 values of the length attribute, of every object-length octet and of the version octet: no panic, iteration under ceiling, payload/extension inside the message and disjoint. Non-trivial = message carries >= 1 object, or is a corruption"));
     rep.sample(json!({"unit": "udp/v6/dublin TE compliant", "quoted_octets": 136, "objects": "[Mpls(depth 2), Other(class 2)]"}));
     rep.assumptions = vec!["MPLS stacks of the conformant half have >= 1 member and S=1 exactly on the last (RFC 4950); padding is part of the original-datagram field (DESIGN.md 5.11)".into()];
     rep.finish()
